@@ -107,7 +107,7 @@ def sim_cases(draw, n_markets=(1, 3), index_prob=2, vol_zero=None, ticks=TICKS, 
               hft=True, builtin=False, n_sessions=(1, 3), steps=(1, 8), placement=None, execution=None, caps=(0, 4),
               hcaps=(0, 3), rates=(0.0, 1.0, 0.5), probes=True, spec=None, illegal=False, correlations=False,
               max_actions=5, horizon=25, decline_weight=1, always_events=False, cash=(1000, 10000.5, 1e6),
-              random_endowment=False, rules=False):
+              random_endowment=False, rules=False, mistake=False):
     nm = draw(st.integers(*n_markets))
     names = [f"M{i}" for i in range(nm)]
     cfg: Dict[str, Any] = {"simulation": {"markets": list(names), "agents": [], "sessions": []}}
@@ -118,7 +118,11 @@ def sim_cases(draw, n_markets=(1, 3), index_prob=2, vol_zero=None, ticks=TICKS, 
         comps = names[: draw(st.integers(2, min(3, nm)))]
         cfg["IDX"] = {"class": "IndexMarket", "tickSize": draw(st.sampled_from(ticks)), "marketPrice": draw(st.sampled_from(PRICES)),
                       "markets": comps}
-        cfg["simulation"]["markets"].append("IDX")
+        if len(comps) < nm and draw(st.booleans()):
+            # the index entry listed right after its components, BEFORE a market it does not contain
+            cfg["simulation"]["markets"].insert(len(comps), "IDX")
+        else:
+            cfg["simulation"]["markets"].append("IDX")
         all_markets.append("IDX")
         if draw(st.integers(0, 3)) == 0:
             # an index of indices (listed after its component index, the only order pams supports)
@@ -171,6 +175,13 @@ def sim_cases(draw, n_markets=(1, 3), index_prob=2, vol_zero=None, ticks=TICKS, 
         cfg["simulation"]["sessions"][draw(st.integers(0, ns - 1))]["iterationSteps"] = 0
         if all(s_["iterationSteps"] == 0 for s_ in cfg["simulation"]["sessions"]):
             cfg["simulation"]["sessions"][0]["iterationSteps"] = 1
+    if mistake and draw(st.integers(0, 2)) == 0:
+        # a fat-finger event somewhere in the run: it rewrites one pending order; acceptance rules apply to the rewritten order as well
+        si = draw(st.integers(0, ns - 1))
+        cfg["OMS"] = {"class": "OrderMistakeShock", "target": draw(st.sampled_from(names)), "triggerTime": draw(st.integers(0, 4)),
+                      "priceChangeRate": draw(st.sampled_from([0.05, -0.05])), "orderVolume": draw(st.integers(1, 9)), "orderTimeLength": draw(st.integers(1, 6))}
+        ses = cfg["simulation"]["sessions"][si]
+        ses["events"] = list(ses.get("events", [])) + ["OMS"]
     if rules and draw(st.booleans()):
         # a shipped circuit breaker around the same traffic: fills that stop a market in the middle of a round
         targets = draw(st.lists(st.sampled_from(names), min_size=1, max_size=len(names), unique=True))
